@@ -187,11 +187,11 @@ func (w *World) Func(rel, recv, name string) *ssa.Function {
 		w.unres = append(w.unres, fmt.Sprintf("type %s.%s", rel, recv))
 		return nil
 	}
-	for _, T := range []types.Type{types.NewPointer(t.Type()), t.Type()} {
+	for _, T := range []types.Type{t.Type(), types.NewPointer(t.Type())} {
 		if sel := w.Prog.MethodSets.MethodSet(T).Lookup(p.Pkg, name); sel != nil {
 			if fn := w.Prog.MethodValue(sel); fn != nil {
-				// unwrap promoted-method wrappers to the declared method
-				return fn
+				// unwrap promoted-method / pointer-receiver wrappers to the declared method
+				return w.unwrap(fn)
 			}
 		}
 	}
